@@ -437,6 +437,16 @@ func (s *SimFS) OpenHandles() (int, map[string]int) {
 	return s.handles, m
 }
 
+// RemoveTree drops a directory and its files (harness housekeeping; not journalled).
+func (s *SimFS) RemoveTree(dir string) {
+	for n := range s.files {
+		if strings.HasPrefix(n, dir+"/") {
+			delete(s.files, n)
+		}
+	}
+	delete(s.dirs, dir)
+}
+
 // LocksHeld returns the number of lock files currently held.
 func (s *SimFS) LocksHeld() int {
 	n := 0
